@@ -5,6 +5,7 @@ import (
 	"fmt"
 	"os"
 	"reflect"
+	"regexp"
 	"sort"
 	"strconv"
 	"strings"
@@ -281,6 +282,63 @@ func metaCase(c *Ctx, fam *report.Family, f string, s *PkgSpec, in map[string]an
 				}
 			}
 		}
+		// … and exactly: names, versions and sense flags of all six categories against the model of rpm.toRelation and
+		// rpmpack's NewRelation / Set / AddToIndex (RpmRel.lean; rpm_relation_roundtrip, rpm_relations_complete_in_order)
+		{
+			enc := func(items []string) string {
+				var b strings.Builder
+				fmt.Fprintf(&b, "%d", len(items))
+				for _, it := range items {
+					b.WriteString(" " + wire.H(it))
+				}
+				return b.String()
+			}
+			hs := func(tag int) string {
+				if t, ok := dec.Rpm.Hdr[tag]; ok && len(t.Strs) > 0 {
+					return t.Strs[0]
+				}
+				return ""
+			}
+			req := fmt.Sprintf("rpmrels %s %s %s %s %s %s %s %s", wire.H(hs(1000)), wire.H(hs(1001)+"-"+hs(1002)),
+				enc(infoForModel.Provides), enc(infoForModel.Depends), enc(infoForModel.Recommends), enc(infoForModel.Replaces), enc(infoForModel.Suggests), enc(infoForModel.Conflicts))
+			var want strings.Builder
+			n := 0
+			for _, tag := range []int{1047, 1113, 1112, 1090, 1115, 1114, 5049, 5050, 5051, 5046, 5047, 5048, 1049, 1050, 1048, 1054, 1055, 1053} {
+				t, ok := dec.Rpm.Hdr[tag]
+				if !ok {
+					continue
+				}
+				n++
+				var d []byte
+				if t.Type == 4 {
+					for _, v := range t.Ints {
+						d = append(d, byte(v>>24), byte(v>>16), byte(v>>8), byte(v))
+					}
+				} else {
+					for _, sv := range t.Strs {
+						d = append(append(d, sv...), 0)
+					}
+				}
+				fmt.Fprintf(&want, " %d %d %d %s", t.Tag, t.Type, t.Count, wire.H(string(d)))
+			}
+			wantS := fmt.Sprintf("%d%s", n, want.String())
+			if a, err := c.D.Ask(req); err == nil && a != wantS {
+				canonical := true
+				for _, l := range [][]string{infoForModel.Provides, infoForModel.Depends, infoForModel.Recommends, infoForModel.Replaces, infoForModel.Suggests, infoForModel.Conflicts} {
+					for _, it := range l {
+						if !rpmCanonicalRelation.MatchString(it) {
+							canonical = false
+						}
+					}
+				}
+				disagree("rpm relation entries (names, versions, flags of provides, obsoletes, suggests, recommends, requires, conflicts) vs model", a, wantS)
+				if canonical && a != "error" {
+					c.Rep.Find(report.Finding{Property: "C02", Family: fam.Name, Shape: "rpm:relations-differ-from-configuration",
+						What:  fmt.Sprintf("the relation entries of the rpm header are not what the configured relations denote (every item is spelled `name` or `name op version`): header %.400s, configuration denotes %.400s", wantS, a),
+						Input: in2})
+				}
+			}
+		}
 		if infoForModel.Epoch != "" {
 			if t, ok := dec.Rpm.Hdr[1003]; !ok || len(t.Ints) == 0 || strconv.FormatUint(t.Ints[0], 10) != strings.TrimLeft(infoForModel.Epoch, "0") && !(infoForModel.Epoch == "0" && t.Ints[0] == 0) {
 				c.Rep.Find(report.Finding{Property: "C02", Family: fam.Name, Shape: "rpm:epoch-differs", What: "epoch tag differs from configured epoch " + infoForModel.Epoch, Input: in2})
@@ -296,6 +354,9 @@ func metaCase(c *Ctx, fam *report.Family, f string, s *PkgSpec, in map[string]an
 		fam.Sample(in2)
 	}
 }
+
+// a relation spelled the way rpm spells it: a name, optionally followed by one of the five operators and a version
+var rpmCanonicalRelation = regexp.MustCompile(`^[^=<>\s(][^=<>\s]*( (<|>|=|<=|>=) [^=<>\s][^\n]*)?$`)
 
 func first(xs []string) string {
 	if len(xs) > 0 {
